@@ -6,3 +6,22 @@ pub assume_specification<T, A: std::alloc::Allocator> [std::collections::VecDequ
             i >= d@.len() ==> r is None;
 pub assume_specification<T, A: std::alloc::Allocator> [<std::collections::VecDeque<T, A> as core::convert::From<Vec<T, A>>>::from] (v: Vec<T, A>) -> (r: std::collections::VecDeque<T, A>)
     ensures r@ == v@;
+pub assume_specification<T, E> [std::option::Option::<std::result::Result<T, E>>::transpose] (o: std::option::Option<std::result::Result<T, E>>) -> (r: std::result::Result<std::option::Option<T>, E>)
+    ensures
+        o is None ==> r == Ok::<Option<T>, E>(None),
+        o matches Some(Ok(v)) ==> r == Ok::<Option<T>, E>(Some(v)),
+        o matches Some(Err(e)) ==> r == Err::<Option<T>, E>(e);
+/// what `HashMap::extend(source)` inserts, as a map (later pairs win); for a HashMap source it is its view
+pub uninterp spec fn extend_source<K, V, T>(t: T) -> Map<K, V>;
+pub broadcast axiom fn axiom_extend_source_hashmap<K, V, S>(h: std::collections::HashMap<K, V, S>)
+    ensures #[trigger] extend_source::<K, V, std::collections::HashMap<K, V, S>>(h) == h@;
+pub assume_specification<K: std::cmp::Eq + std::hash::Hash, V, S: std::hash::BuildHasher, A: std::alloc::Allocator, T: std::iter::IntoIterator<Item = (K, V)>>
+    [<std::collections::HashMap<K, V, S, A> as std::iter::Extend<(K, V)>>::extend] (m: &mut std::collections::HashMap<K, V, S, A>, src: T)
+    ensures
+        vstd::std_specs::hash::obeys_key_model::<K>() && vstd::std_specs::hash::builds_valid_hashers::<S>()
+            ==> final(m)@ == old(m)@.union_prefer_right(extend_source::<K, V, T>(src));
+pub broadcast proof fn lemma_subrange_full<T>(s: Seq<T>)
+    ensures #[trigger] s.subrange(0, s.len() as int) == s,
+{
+    assert(s.subrange(0, s.len() as int) =~= s);
+}
